@@ -25,7 +25,10 @@ VERIF = os.path.dirname(os.path.dirname(os.path.abspath(__file__)))
 LEAN = os.path.join(VERIF, "lean")
 REPO = os.environ.get("ISOBAR_REPO", "/repo")
 DRIVER = os.path.join(LEAN, ".lake", "build", "bin", "driver")
-EVIDENCE_DIR = os.path.join(VERIF, "evidence")
+# evidence/ describes runs on /repo; a run against another tree (ISOBAR_REPO: a seeded change in a scratch worktree) keeps
+# its evidence and replay files apart so that it never overwrites what the registered commands wrote
+ALT_TREE = os.path.realpath(REPO) != "/repo"
+EVIDENCE_DIR = os.path.join(VERIF, "evidence") if not ALT_TREE else os.path.join("/tmp", "verif-alt-tree", "evidence")
 REPLAY_DIR = os.path.join(VERIF, "replays")
 FINDINGS_FILE = os.path.join(VERIF, "known_findings.json")
 
